@@ -79,14 +79,15 @@ Record case10 := mkcase10 { c_start : obj V; c_steps : list (list entry * obj V)
 Definition zero_of (zs : list (nat * V)) (k : nat) : V :=
   match lookup k zs with Some z => z | None => [] end.
 
-(* projection: absent derivative = zero; derivative elements of masked target elements hidden *)
+(* projection: absent derivative = zero carrying the target's mask; a derivative shows its own
+   mask state (seeded change C10-B: a derivative left unmasked at a masked target element is
+   observable through t.d_dk), its values only where it is unmasked *)
 Definition obs_der (main : plain V) (p : plain V) : eobs :=
-  (psh p, map (fun i => if mget (pmask main) i || mget (pmask p) i then None else Some (pval p i))
+  (psh p, map (fun i => if mget (pmask p) i then None else Some (pval p i))
               (all_mi (psh p))).
 Definition obs10 (zs : list (nat * V)) (q : obj V) : eobs * list eobs :=
   (obs_plain (omain q),
-   map (fun kz => obs_der (omain q) (der_or_zero (snd kz) (fst kz) q
-                                       (mkpl (psh (omain q)) (pval (omain q)) (MS false)))) zs).
+   map (fun kz => obs_der (omain q) (der_or_zero (snd kz) (fst kz) q (omain q))) zs).
 
 (* accepted?  a right-hand side that does not fit may be ignored when nothing is selected *)
 Definition flag_ok (sh : shape) (step : list entry * obj V) (oc : outcome) (impl_ok : bool) : bool :=
